@@ -399,6 +399,92 @@ def run(prog: Program, ctx: Ctx) -> None:  # noqa: PLR0912,PLR0915
     ctx.expect_min("R5", n_pat, 9)
     ctl = regex_findings(r"(?:[^()]+|\([^()]*\))+") and regex_findings(r"(a+)+") and not regex_findings(r"(?:\w+,\s*)*\w+")
     ctx.ob("R5", "positive-control", bool(ctl), "positive control: known catastrophic patterns are flagged and a safe separator-delimited one is not", "")
+    _totality_table(prog, ctx)
+
+
+ALPHABET = [
+    "", "Summary line.", "foo", "  indented", "    x: d", "    x (int): d", "    (int): d", "        continuation", "Returns:", "Yields:", "Args:", "Raises:", "Attributes:",
+    "Note:", "Examples:", "Returns", "Parameters", "-------", "x : int", "x", ":", ":param x: d", ":type x: int", ":returns: d", ":raises E:", ":var", ">>> f()  # doctest: +SKIP", "```",
+    "Deprecated", "1.0",
+]
+
+
+def _totality_table(prog: Program, ctx: Ctx) -> None:
+    """R6: the three parsers evaluated on every line sequence up to the bound over an alphabet of line shapes, under the option sets that select
+    different reader paths, with and without a parent: none raises, each returns a list of sections, the docstring object is unchanged."""
+    import inspect
+    import itertools
+
+    from sa.absint import Obj, Raised
+
+    ctx.rule("R6", "bounded-exhaustive totality: for every sequence of up to N lines over an alphabet of line shapes (titles, items, continuation lines, "
+                   "dash lines, field lists, blank lines), every style, the option sets that switch reader paths and three kinds of parent, the parser "
+                   "returns a list of sections without raising")
+    from sa.absint import StepLimit
+
+    it = Interp(prog, max_depth=40, max_steps=50_000)
+    it.stubs["_griffe.docstrings.utils.parse_docstring_annotation"] = lambda _i, ann, _ds, **_k: ann
+    it.stubs["_griffe.docstrings.utils.docstring_warning"] = lambda _i, *_a, **_k: None
+    dcls = prog.cls("_griffe.models.Docstring")
+    fn_par = Obj(prog.cls("_griffe.models.Function"), {"parameters": {"x": Obj(None, {"name": "x", "annotation": "T", "default": "1", "__closed__": True})}, "returns": "Ret[A, B]",
+                                                        "labels": set(), "name": "f", "path": "m.f", "__closed__": True}, label="function")
+    prop_par = Obj(prog.cls("_griffe.models.Attribute"), {"annotation": "int", "labels": {"property"}, "name": "p", "path": "m.p", "members": {}, "__closed__": True}, label="property")
+    parents = {"no parent": None, "function": fn_par, "property": prop_par}
+    configs = {
+        "google": [{}, {"returns_multiple_items": False, "receives_multiple_items": False}, {"returns_named_value": False, "receives_named_value": False},
+                   {"returns_type_in_property_summary": True}, {"ignore_init_summary": True}],
+        "numpy": [{}, {"ignore_init_summary": True}],
+        "sphinx": [{}],
+    }
+    thorough = ctx.tier == "thorough"
+    depth = 3 if thorough else 2
+    # quick: single lines, and every pair of lines after a summary and a blank line (where sections are recognised); thorough: all sequences up to 3 lines too
+    seqs = [(a,) for a in ALPHABET] + [("Summary line.", "", a, b) for a, b in itertools.product(ALPHABET, repeat=2)]
+    if thorough:
+        seqs += [s for n_ in range(2, depth + 1) for s in itertools.product(ALPHABET, repeat=n_)]
+        seqs += [("Summary line.", "", a, b, c) for a, b, c in itertools.product(ALPHABET[:18], repeat=3)]
+    n = 0
+    reported: set[str] = set()
+    for style, opts_list in configs.items():
+        fn = prog.function(f"_griffe.docstrings.{style}.parse_{style}")
+        hung = False
+        for seq in seqs:
+            if hung:
+                break  # one non-terminating parse is the finding; the remaining documents of this style would each burn the whole budget
+            value = inspect.cleandoc("\n".join(seq).rstrip())  # what Docstring.__init__ stores (R4 decides that it does)
+            if not value:
+                continue
+            lines = value.split("\n")
+            for opts, (pname, par) in itertools.product(opts_list, parents.items()):
+                if pname == "property" and not opts.get("returns_type_in_property_summary"):
+                    continue
+                if pname == "no parent" and opts and not thorough:
+                    continue
+                ds = Obj(dcls, {"lines": list(lines), "value": value, "parent": par, "lineno": 1, "endlineno": len(lines)}, label="docstring")
+                it.steps = 0
+                try:
+                    out = it.call(fn, ds, warn_unknown_params=False, **opts)
+                    problem = None if isinstance(out, list) else f"returns {type(out).__name__}"
+                    if problem is None and (ds.attrs["lines"] != lines or ds.attrs["value"] != value):
+                        problem = "modifies the docstring"
+                except Raised as r:
+                    problem = f"raises {r.exc}"
+                except StepLimit:
+                    problem = f"does not finish within {it.max_steps} evaluation steps (a terminating parse of four lines needs a few thousand)"
+                    it.depth = 0
+                    hung = True
+                n += 1
+                if problem is None:
+                    continue
+                cls_key = f"{style}|{problem}|{sorted(opts)}|{pname}"
+                if cls_key in reported:
+                    continue
+                reported.add(cls_key)
+                ctx.ob("R6", f"total|{cls_key}", False, f"parse_{style}({value!r}, {opts or 'default options'}, {pname}) {problem}", where(fn))
+    ctx.ob("R6", f"total|{n} parses", True, f"{n} parses (sequences up to {depth} lines over {len(ALPHABET)} line shapes) returned sections without raising", "", nontrivial=True)
+    if not reported:
+        ctx.expect_min("R6", n, 4000)
+    ctx.analysed["totality_parses"] = n
 
 
 def _root_name(node: ast.AST) -> str | None:
